@@ -27,7 +27,7 @@ MAX_CLASSES = 12
 MAX_MIN_PER_CLASS = 4
 MINIMISE_BUDGET_S = 120
 BALLAST = 1100
-GIANT_EVERY = 1500       # every 1500th run uses one array beyond 2**16 cells
+GIANT_EVERY = 500        # every 500th run uses one array beyond 2**16 cells
 
 
 def _h(s):
